@@ -51,6 +51,13 @@ Proof. intros ->. exact stale_replay_when_not_cleared. Qed.
 Theorem C15_refuted_last_preterminal : loop_saves false true = false.
 Proof. exact last_preterminal_not_saved. Qed.
 
+(* the hypotheses of C15_continuation are satisfiable on a non-trivial instance
+   (level 2 of Gex, cut after its 2nd guess, 3 strings remain) *)
+Theorem C15_example_hypotheses :
+  mc_starts (ip_at (Gex 10)) (ln_at (Gex 10)) 10 0 = Some (0, 0) /\
+  1 < length (level_strings (Gex 10) 2%Z).
+Proof. exact (conj (proj1 Gex_continuation) (proj1 (proj2 Gex_continuation))). Qed.
+
 (* NOT PROVED here (outside the OMEN model; exercised by the oracle of
    harness/props/C15.py on the real session only):
 
